@@ -11,6 +11,8 @@
 //!       bespoke parser (set, kill, typeset +x, pwd, true …), shell level only (oracle: identical stdout/status/stderr-emptiness/probe)
 //!   `E <portable> <cmd> <setup> <probe> <arg>*`  an invocation the built-in must reject (syntax or operand error): diagnostic,
 //!       non-zero status, nothing on stdout, state probe unchanged
+//!   `J <step> ( ; <step> )*`  getopts sessions in ONE shell environment: `S <i|a|l> <optstring> <limit|*> <arg>*` (spelling:
+//!       implicit positional parameters | explicit "$@" | literal vector; run to completion or for <limit> calls), `R <value>` (OPTIND=value)
 //!   `G <optstring> <arg>*`                        `while getopts optstring v arg…` run to the end in a virtual shell
 //!
 //! Observation of `P`: options (spec, spelling, argument) + operands, or the error class with the
@@ -1428,6 +1430,245 @@ fn bespoke_shell_cases(e: &mut Emitter) {
     }
 }
 
+// ------------------------------------------------------------------------------------------
+// `J`: getopts histories — several sessions in one shell environment (getopts.rs `main` + verify.rs)
+
+#[derive(Clone, Debug)]
+enum HStep {
+    Session { sp: char, spec: String, limit: Option<usize>, vec: Vec<String> },
+    Assign(String),
+}
+
+fn parse_hsteps(w: &[&str]) -> Option<Vec<HStep>> {
+    let mut out = vec![];
+    for part in w.split(|t| *t == ";") {
+        match part {
+            ["R", v] => out.push(HStep::Assign(dec_str(v)?)),
+            ["S", sp, spec, lim, vec @ ..] => {
+                let sp = match *sp {
+                    "i" => 'i',
+                    "a" => 'a',
+                    "l" => 'l',
+                    _ => return None,
+                };
+                let limit = if *lim == "*" { None } else { Some(lim.parse().ok()?) };
+                out.push(HStep::Session {
+                    sp,
+                    spec: dec_str(spec)?,
+                    limit,
+                    vec: vec.iter().map(|a| dec_str(a)).collect::<Option<Vec<String>>>()?,
+                });
+            }
+            _ => return None,
+        }
+    }
+    Some(out)
+}
+
+fn history_script(steps: &[HStep]) -> String {
+    let mut sc = String::new();
+    for st in steps {
+        match st {
+            HStep::Assign(v) => sc.push_str(&format!("OPTIND={}\n", sh_quote(v))),
+            HStep::Session { sp, spec, limit, vec } => {
+                let quoted: Vec<String> = vec.iter().map(|a| sh_quote(a)).collect();
+                let mut call = format!("getopts {} v", sh_quote(spec));
+                match sp {
+                    'i' => sc.push_str(&format!("set -- {}\n", quoted.join(" "))),
+                    'a' => {
+                        sc.push_str(&format!("set -- {}\n", quoted.join(" ")));
+                        call.push_str(" \"$@\"");
+                    }
+                    _ => {
+                        for q in &quoted {
+                            call.push(' ');
+                            call.push_str(q);
+                        }
+                    }
+                }
+                let k = limit.unwrap_or(60);
+                sc.push_str(&format!(
+                    "n=0\nwhile :; do {call}; s=$?; case $s in 0) ;; *) break;; esac; echo \"c|$v|${{OPTARG-~}}|$OPTIND\"; \
+                     n=$((n+1)); case $n in {k}) break;; esac; done\necho \"e|$s|${{v-~}}|${{OPTARG-~}}|$OPTIND\"\n"
+                ));
+            }
+        }
+        sc.push_str("echo ==\n");
+    }
+    sc
+}
+
+fn raw_or_dash(s: &str) -> String {
+    if s.is_empty() { "-".into() } else { s.to_string() }
+}
+
+/// per step: `r` or `[calls] fin=… now=…`; then the numbers of option diagnostics and of usage errors
+fn run_history(steps: &[HStep]) -> (Vec<String>, usize, usize) {
+    let o = shell::run_script(&history_script(steps));
+    let out = o.stdout_str();
+    let mut shown = vec![];
+    let mut blocks = out.split("==\n");
+    for st in steps {
+        let block = blocks.next().unwrap_or("");
+        match st {
+            HStep::Assign(_) => shown.push("r".to_string()),
+            HStep::Session { limit, .. } => {
+                let mut calls = vec![];
+                let mut end = "LOST".to_string();
+                for l in block.lines() {
+                    let f: Vec<&str> = l.split('|').collect();
+                    if f.len() == 4 && f[0] == "c" {
+                        calls.push(format!("{},{},{}", enc_str(f[1]), tilde_hex(f[2]), raw_or_dash(f[3])));
+                    } else if f.len() == 5 && f[0] == "e" {
+                        let fin = if f[1] == "0" {
+                            if limit.is_some() { "part".to_string() } else { "LOOP".to_string() }
+                        } else {
+                            format!("st{}", f[1])
+                        };
+                        end = format!("fin={} now={},{},{}", fin, tilde_hex(f[2]), tilde_hex(f[3]), raw_or_dash(f[4]));
+                    }
+                }
+                shown.push(format!("[{}] {}", calls.join(";"), end));
+            }
+        }
+    }
+    let err = o.stderr_str();
+    let diag = err.lines().filter(|l| l.starts_with("yash:")).count();
+    let errors = err.lines().filter(|l| l.starts_with("error:")).count();
+    if o.stuck {
+        shown.push("STUCK".into());
+    }
+    (shown, diag, errors)
+}
+
+fn run_j(w: &[&str]) -> (String, String) {
+    let Some(steps) = parse_hsteps(&w[1..]) else { return ("bad-case".into(), "-".into()) };
+    let res = std::cell::RefCell::new(None);
+    let obs = guarded(|| {
+        let (shown, diag, errors) = run_history(&steps);
+        let s = format!("{} diag={} err={}", shown.join(" | "), diag, errors);
+        *res.borrow_mut() = Some(shown);
+        s
+    });
+    // the property, on the real shell only: a complete session that starts with OPTIND=1 must look
+    // exactly like the same session alone in a fresh shell, in every spelling
+    let oracle = guarded(|| {
+        let Some(shown) = res.borrow_mut().take() else { return "-".into() };
+        let mut optind = "1".to_string();
+        let mut checked = 0;
+        for (st, seen) in steps.iter().zip(shown.iter()) {
+            match st {
+                HStep::Assign(v) => optind = v.clone(),
+                HStep::Session { sp, spec, limit, vec } => {
+                    if limit.is_none() && optind == "1" && !(*sp == 'l' && vec.is_empty()) {
+                        let mut sps = vec!['i', 'a'];
+                        if !vec.is_empty() {
+                            sps.push('l');
+                        }
+                        for s2 in sps {
+                            let alone = [HStep::Session { sp: s2, spec: spec.clone(), limit: None, vec: vec.clone() }];
+                            let (fresh, _, _) = run_history(&alone);
+                            if &fresh[0] != seen {
+                                return format!(
+                                    "FAIL:session {sp} {spec:?} {vec:?} gives {seen} but alone in a fresh shell (spelling {s2}) {}",
+                                    fresh[0]
+                                );
+                            }
+                        }
+                        checked += 1;
+                    }
+                    optind = seen.rsplit(',').next().unwrap_or("").to_string();
+                }
+            }
+        }
+        if checked == 0 { "-".into() } else { "ok".into() }
+    });
+    (obs, oracle)
+}
+
+fn show_hsteps(steps: &[HStep]) -> String {
+    let parts: Vec<String> = steps
+        .iter()
+        .map(|s| match s {
+            HStep::Assign(v) => format!("R {}", enc_str(v)),
+            HStep::Session { sp, spec, limit, vec } => {
+                let mut t = format!("S {} {} {}", sp, enc_str(spec), limit.map(|k| k.to_string()).unwrap_or_else(|| "*".into()));
+                for a in vec {
+                    t.push(' ');
+                    t.push_str(&enc_str(a));
+                }
+                t
+            }
+        })
+        .collect();
+    format!("J {}", parts.join(" ; "))
+}
+
+fn history_cases(e: &mut Emitter, rng: &mut Rng, thorough: bool) {
+    let specs = ["ab", "a:b", ":ab"];
+    let vecs: Vec<Vec<&str>> = vec![
+        vec![], vec!["-a"], vec!["-a", "-b"], vec!["-ab"], vec!["-axb"], vec!["-a", "X"], vec!["-aY", "-b"], vec!["-a", "--", "-b"],
+        vec!["-b", "-a", "-b"], vec!["X"],
+    ];
+    let sess = |sp: char, spec: &str, v: &Vec<&str>, limit: Option<usize>| HStep::Session {
+        sp,
+        spec: spec.to_string(),
+        limit,
+        vec: v.iter().map(|s| s.to_string()).collect(),
+    };
+    let reset = || HStep::Assign("1".into());
+    let emit_steps = |e: &mut Emitter, steps: Vec<HStep>| {
+        if e.mine() {
+            let case = show_hsteps(&steps);
+            let (obs, oracle) = run_case(&case);
+            emit(&case, &obs, &oracle);
+        }
+    };
+    // every pair of sessions (spelling x vector) x (spelling x vector) with a reset in between, one optstring each
+    let spellings = ['i', 'a', 'l'];
+    for (k, spec) in specs.iter().enumerate() {
+        for s1 in spellings {
+            for v1 in &vecs {
+                emit_steps(e, vec![sess(s1, spec, v1, None)]);
+                for s2 in spellings {
+                    for v2 in &vecs {
+                        if !thorough && (k != 0 || (v1.len() + v2.len()) % 2 == 1) {
+                            continue;
+                        }
+                        emit_steps(e, vec![sess(s1, spec, v1, None), reset(), sess(s2, spec, v2, None)]);
+                    }
+                }
+            }
+        }
+    }
+    // random histories: 1-3 sessions; resets present, missing or garbage; partial sessions followed by a changed vector
+    let garbage = ["x", "0", "2", "1:2", "", "01", "+1", "1:1", "3:x", "10"];
+    let n = if thorough { 40_000 } else { 3_000 };
+    for _ in 0..n {
+        let mut r = rng.fork();
+        let mut steps = vec![];
+        let nsess = 1 + r.below(3);
+        if r.chance(1, 8) {
+            steps.push(HStep::Assign(r.pick(&garbage).to_string()));
+        }
+        for i in 0..nsess {
+            if i > 0 {
+                match r.below(10) {
+                    0 | 1 => {}                                                        // no reset: documented misuse
+                    2 => steps.push(HStep::Assign(r.pick(&garbage).to_string())), // garbage
+                    _ => steps.push(reset()),
+                }
+            }
+            let spec = *r.pick(&specs);
+            let v = r.pick(&vecs).clone();
+            let sp = *r.pick(&spellings);
+            let limit = if r.chance(1, 5) { Some(1 + r.below(2)) } else { None };
+            steps.push(sess(sp, spec, &v, limit));
+        }
+        emit_steps(e, steps);
+    }
+}
+
 fn run_case(case: &str) -> (String, String) {
     let w: Vec<&str> = case.split_whitespace().collect();
     match w.first() {
@@ -1435,6 +1676,7 @@ fn run_case(case: &str) -> (String, String) {
         Some(&"S") => run_s(&w),
         Some(&"M") => run_m(&w),
         Some(&"G") => run_g(&w),
+        Some(&"J") => run_j(&w),
         Some(&"B") => run_b(&w),
         Some(&"E") => run_e(&w),
         Some(&"T") => run_t(&w),
@@ -2074,6 +2316,7 @@ fn main() {
 
     // (iii) the getopts built-in's own walker
     getopts_cases(&mut e, &mut rng, thorough);
+    history_cases(&mut e, &mut rng, thorough);
 
     // (iv) the bespoke parsers: set, the shell's command line, kill
     bespoke_shell_cases(&mut e);
